@@ -15,6 +15,9 @@ Expressions: names, str/int constants, module-level str constants,
 `not`, `and`/`or` (in tests), `==`, `!=`, `in`, `not in`, `+` on str,
 `s.startswith(e | (c1, c2, ...))`, `s.endswith(c)`, `s[:-n]`, `s[n:]`,
 `len(CONST)`, `[]`, `[e, ...]`.
+State nodes (parameter type `node`, read as the node's id string; `opt_node` = Optional[StateNode]): `n.id`,
+`n1 == n2` (read as equality of ids: ids are unique, see Tree.ids_distinct), f-strings made of constants and
+`{n.id}` / `{str expr}`, and the guard `if not n: return e` on an `opt_node` parameter (becomes a `match`).
 """
 from __future__ import annotations
 
@@ -71,6 +74,23 @@ class Fn:
             if e.id in self.consts:
                 return coq_str(self.consts[e.id]), "str"
             self.fail(e, "unknown name")
+        if isinstance(e, ast.Attribute) and isinstance(e.value, ast.Name) and e.attr == "id" and env.get(e.value.id) == "node":
+            return self.v(e.value.id), "str"
+        if isinstance(e, ast.JoinedStr):
+            parts = []
+            for part in e.values:
+                if isinstance(part, ast.Constant) and isinstance(part.value, str):
+                    parts.append(coq_str(part.value))
+                elif isinstance(part, ast.FormattedValue) and part.conversion == -1 and part.format_spec is None:
+                    c, t = self.expr(part.value, env)
+                    if t != "str":
+                        self.fail(e, "f-string part of type " + t)
+                    parts.append(c)
+                else:
+                    self.fail(e, "f-string part")
+            if not parts:
+                return coq_str(""), "str"
+            return "(" + " ++ ".join(parts) + ")%string", "str"
         if isinstance(e, ast.Constant):
             if isinstance(e.value, str):
                 return coq_str(e.value), "str"
@@ -95,6 +115,9 @@ class Fn:
             a, ta = self.expr(e.left, env)
             b, tb = self.expr(e.comparators[0], env)
             op = e.ops[0]
+            if isinstance(op, (ast.Eq, ast.NotEq)) and ta == tb == "node":
+                r = f"(String.eqb {a} {b})"
+                return (r if isinstance(op, ast.Eq) else f"(negb {r})"), "bool"
             if isinstance(op, (ast.Eq, ast.NotEq)) and ta == tb == "str":
                 r = f"(String.eqb {a} {b})"
                 return (r if isinstance(op, ast.Eq) else f"(negb {r})"), "bool"
@@ -255,6 +278,16 @@ class Fn:
             if loop_k is None:
                 self.fail(s, "continue outside loop")
             return loop_k(env)
+        if isinstance(s, ast.If) and isinstance(s.test, ast.UnaryOp) and isinstance(s.test.op, ast.Not) \
+                and isinstance(s.test.operand, ast.Name) and env.get(s.test.operand.id) == "opt_node":
+            # `if not n: return e` on an Optional[StateNode]: None -> e, Some id -> the rest, where n is a node
+            if s.orelse or not self.terminates(s.body):
+                self.fail(s, "guard on an optional node must be `if not n: return ...`")
+            x = s.test.operand.id
+            env2 = dict(env)
+            env2[x] = "node"
+            return (f"match {self.v(x)} with\n| None => ({self.block(s.body, env, k, loop_k)})\n"
+                    f"| Some {self.v(x)} => ({self.block(rest, env2, k, loop_k)})\nend")
         if isinstance(s, ast.If):
             c = self.test(s.test, env)
             if self.terminates(s.body) and not s.orelse:
@@ -299,7 +332,8 @@ class Fn:
         args = {a.arg for a in self.fdef.args.args if a.arg not in ("self", "cls")}
         if args != set(env):
             raise Untranslatable(f"{self.src_name}: parameters changed: {sorted(args)} vs {sorted(env)}")
-        coqty = {"str": "string", "keys": "list string", "list_str": "list string", "bool": "bool", "nat": "nat"}
+        coqty = {"str": "string", "keys": "list string", "list_str": "list string", "bool": "bool", "nat": "nat",
+                 "node": "string", "opt_node": "option string"}
         ps = " ".join(f"({self.v(p)} : {coqty[t]})" for p, t in self.params)
 
         def off_end(env2):
@@ -313,6 +347,10 @@ SPECS = {
     "GenMatch": [
         dict(file="base_interpreter.py", cls="BaseInterpreter", func="_matching_descriptors",
              coqname="matching_descriptors", params=[("on_map", "keys"), ("event_type", "str")], ret="list_str"),
+    ],
+    "GenTree": [
+        dict(file="base_interpreter.py", cls="BaseInterpreter", func="_is_descendant", coqname="is_descendant",
+             params=[("node", "node"), ("ancestor", "opt_node")], ret="bool"),
     ],
     "GenSpawn": [
         dict(file="models.py", cls=None, func="is_spawn_action", coqname="is_spawn_action",
